@@ -125,7 +125,7 @@ def check_call(u, fn, args, self_obj=None, extra_env=None):
     except Exception:
       mr[exc] = None
   try:
-    result = fn(*args) if self_obj is None else fn(self_obj, *args)
+    result = fn(*args) if (self_obj is None and not u.get('slice')) else fn(self_obj, *args)
     if u.get('yields'):
       result = list(result)
   except AssertionError as ex:
@@ -151,6 +151,9 @@ def check_call(u, fn, args, self_obj=None, extra_env=None):
     if flag:
       raise Violation('no-raise', exc, u['raises'][exc], 'returned %r but contract says it raises' % (result,))
   env['result'] = result
+  for k_, v_ in getattr(fn, 'last_locals', {}).items():      # a slice: its locals at the end (ghost access)
+    env.setdefault(k_, v_)
+    env['final_' + k_] = v_
   if u.get('yields'):
     env['__yields'] = result
   for i, (text, code, olds) in enumerate(ens):
@@ -173,13 +176,67 @@ def resolve(u):
   return mod, obj
 
 
+class _Timeout(BaseException):
+  pass
+
+
+class _deadline(object):
+  """Wall-clock limit for one native case (SIGALRM; main thread of a worker process only)."""
+
+  def __init__(self, seconds):
+    self.seconds = seconds
+
+  def __enter__(self):
+    import signal, threading
+    self.active = threading.current_thread() is threading.main_thread()
+    if self.active:
+      def handler(signum, frame):
+        raise _Timeout()
+      self.old = signal.signal(signal.SIGALRM, handler)
+      signal.setitimer(signal.ITIMER_REAL, self.seconds)
+
+  def __exit__(self, *exc):
+    import signal
+    if self.active:
+      signal.setitimer(signal.ITIMER_REAL, 0)
+      signal.signal(signal.SIGALRM, self.old)
+    return False
+
+
+def slice_function(u, mod):
+  """The statements of a slice unit compiled into a function (self, *params) -> locals at the end of the slice,
+  executed in the globals of the real module: the bounded back end runs the same extracted statements the VCs are
+  generated from."""
+  from . import extract
+  node, seg, info = extract.find_slice(u['file'], u['qualname'], u['slice'][0], u['slice'][1], u['params'])
+  body = list(node.body) + [ast.Return(value=ast.Call(func=ast.Name(id='locals', ctx=ast.Load()), args=[], keywords=[]))]
+  fdef = ast.FunctionDef(name='__verif_slice', args=ast.arguments(
+      posonlyargs=[], args=[ast.arg(arg='self')] + [ast.arg(arg=p) for p in u['params']], kwonlyargs=[],
+      kw_defaults=[], defaults=[], vararg=None, kwarg=None), body=body, decorator_list=[], returns=None)
+  m = ast.fix_missing_locations(ast.Module(body=[fdef], type_ignores=[]))
+  g = dict(vars(mod))
+  exec(compile(m, '<slice of %s>' % u['qualname'], 'exec'), g)
+  inner = g['__verif_slice']
+
+  def fn(self_obj, *args):
+    locs = inner(self_obj, *args)
+    fn.last_locals = {k: v for k, v in locs.items() if k != 'self'}
+    return locs.get(u.get('result_var')) if u.get('result_var') else None
+  fn.last_locals = {}
+  return fn
+
+
 def run_native(u, tier, limit=None):
   """Bounded back end for one unit: every case of u['native'](tier).  Returns dict."""
   gen = u.get('native')
   out = {'unit': u['name'], 'evaluations': 0, 'skipped': 0, 'violation': None, 'samples': []}
   if gen is None:
     return out
-  mod, fn = resolve(u)
+  if u.get('slice'):
+    mod = repo_module(u['file'][:-3].replace('/', '.'))
+    fn = slice_function(u, mod)
+  else:
+    mod, fn = resolve(u)
   modenv = {k: v for k, v in vars(mod).items() if not k.startswith('__')}
   for case in gen(tier, mod):
     args = case.get('args', [])
@@ -187,10 +244,18 @@ def run_native(u, tier, limit=None):
     case['env'] = dict(modenv, **case['env'])
     self_obj = case.get('self')
     try:
-      if case.get('nocopy'):     # the case shares objects between receiver, arguments and its environment
-        st, oc = check_call(u, fn, args, self_obj, case.get('env'))
-      else:
-        st, oc = check_call(u, fn, copy.deepcopy(args), copy.deepcopy(self_obj), case.get('env'))
+      with _deadline(u.get('native_timeout', 30)):
+        if case.get('nocopy'):     # the case shares objects between receiver, arguments and its environment
+          st, oc = check_call(u, fn, args, self_obj, case.get('env'))
+        else:
+          st, oc = check_call(u, fn, copy.deepcopy(args), copy.deepcopy(self_obj), case.get('env'))
+    except _Timeout:
+      out['violation'] = {'unit': u['name'], 'clause': 'termination[0]', 'text': 'the call returns',
+                          'detail': 'no return within %d s on this input (the unchanged tree needs milliseconds)'
+                                    % u.get('native_timeout', 30),
+                          'case': case.get('show', repr(args)[:300])}
+      out['evaluations'] += 1
+      return out
     except Violation as v:
       out['violation'] = {'unit': u['name'], 'clause': '%s[%s]' % (v.clause_kind, v.index),
                           'text': v.text, 'detail': v.detail, 'case': case.get('show', repr(args)[:300])}
